@@ -82,7 +82,10 @@ def unit(pid, battery_name, args, prefix=(), max_depth=None):
             orc = B.Oracle(objs, props, table)
             # other live, used contexts (same labels / other labels) must not disturb this one
             late = concepts.Context(objs, props, [tuple(r) for r in table])   # created before, used after the decoys
-            keep = B.decoys(concepts, objs, props, table, (lambda c, o: battery(c, o, light=True)) if n * m <= 16 else None)   # noqa: F841
+            dbat = (lambda c, o: battery(c, o, light=True)) if n * m <= 16 else None
+            if dbat is not None and battery_name in ('b11', 'b15', 'b14'):
+                dbat.heavy = True
+            keep = B.decoys(concepts, objs, props, table, dbat)   # noqa: F841
             fails = [f'(context created before, used after other contexts over the same labels) {f}'
                      for f in battery(late, orc, light=True)]
             fails += battery(ctx, orc)
